@@ -54,7 +54,8 @@ def simplify(clause):
             return clause
     elif isinstance(clause, ast.BoolOp) and isinstance(clause.op, ast.Or):
         if len(clause.values) == 1:
-            result = ast.UnaryOp(op=ast.Not(), operand=clause.values[0])
+            if getattr(clause, 'or_jump', False): result = clause.values[0]  # the polarity of an or-jump is settled where it is decompiled
+            else: result = ast.UnaryOp(op=ast.Not(), operand=clause.values[0])
         else:
             return clause
     else:
@@ -735,6 +736,7 @@ class Decompiler(object):
         expr = decompiler.stack.pop()
         clause = ast.BoolOp(op=clausetype(), values=[expr])
         clause.endpos = endpos
+        clause.or_jump = decompiler.pos < decompiler.conditions_end and decompiler.pos in decompiler.or_jumps
         decompiler.targets.setdefault(endpos, clause)
         return clause
 
@@ -756,6 +758,7 @@ class Decompiler(object):
         expr = decompiler.stack.pop()
         clause = ast.BoolOp(op=clausetype(), values=[expr])
         clause.endpos = endpos
+        clause.or_jump = decompiler.pos in decompiler.or_jumps
         decompiler.targets.setdefault(endpos, clause)
         return clause
 
